@@ -15,11 +15,13 @@ import builtins
 import hashlib
 import io
 import linecache
+import mmap as _mmap_mod
 import os
 import posixpath
 import random
 import signal
 import sys
+import threading
 import time
 import tokenize  # noqa: F401  (imported here so it captures the *real* open)
 import traceback
@@ -36,7 +38,9 @@ _REAL = {
     "os_getcwd": os.getcwd, "os_getcwdb": os.getcwdb, "os_chdir": os.chdir,
     "os_lstat": os.lstat, "os_chmod": os.chmod, "os_access": os.access, "os_utime": os.utime,
     "islink": os.path.islink, "os__exit": os._exit, "sleep": time.sleep,
+    "thread_start": threading.Thread.start, "mmap": _mmap_mod.mmap, "scandir": os.scandir,
 }
+NAME_MAX = 255
 SLEEP_BUDGET = 600.0     # simulated seconds a tool may spend blocked before it counts as hung
 WALL_BACKSTOP = 45       # real seconds; the slowest legitimate run takes about 1 s unloaded
 FAKE_FD_BASE = 1_000_000   # never a valid real descriptor: a stray real syscall gets EBADF
@@ -364,6 +368,115 @@ class TracedReader:
         return getattr(self._buf, k)
 
 
+class _DirEntry:
+    def __init__(self, world, name, path, vpath):
+        self._w, self.name, self.path, self._vp = world, name, path, vpath
+
+    def is_dir(self, follow_symlinks=True):
+        return self._vp not in self._w.fs.files and self._w._isdir(self._vp)
+
+    def is_file(self, follow_symlinks=True):
+        return self._vp in self._w.fs.files
+
+    def is_symlink(self):
+        return False
+
+    def stat(self, follow_symlinks=True):
+        return self._w._os_stat(self._vp)
+
+    def inode(self):
+        return self.stat().st_ino
+
+    def __fspath__(self):
+        return self.path
+
+
+class _ScanDir:
+    def __init__(self, entries):
+        self._it = iter(entries)
+
+    def __iter__(self):
+        return self
+
+    def __next__(self):
+        return next(self._it)
+
+    def __enter__(self):
+        return self
+
+    def __exit__(self, *a):
+        return False
+
+    def close(self):
+        pass
+
+
+class SimMmap:
+    """The two faces of an mmap object: a bytes-like sequence and a file-like reader."""
+
+    def __init__(self, data):
+        self._d = data
+        self._pos = 0
+        self.closed = False
+
+    def __len__(self):
+        return len(self._d)
+
+    def __getitem__(self, i):
+        return self._d[i]
+
+    def __iter__(self):
+        return iter(self._d)
+
+    def read(self, n=None):
+        if n is None or n < 0:
+            n = len(self._d) - self._pos
+        out = self._d[self._pos:self._pos + n]
+        self._pos += len(out)
+        return out
+
+    def read_byte(self):
+        if self._pos >= len(self._d):
+            raise ValueError("read byte out of range")
+        self._pos += 1
+        return self._d[self._pos - 1]
+
+    def readline(self):
+        i = self._d.find(b"\n", self._pos)
+        end = len(self._d) if i < 0 else i + 1
+        out = self._d[self._pos:end]
+        self._pos = end
+        return out
+
+    def seek(self, pos, whence=0):
+        self._pos = pos if whence == 0 else self._pos + pos if whence == 1 else len(self._d) + pos
+        return self._pos
+
+    def tell(self):
+        return self._pos
+
+    def size(self):
+        return len(self._d)
+
+    def find(self, sub, *a):
+        return self._d.find(sub, *a)
+
+    def close(self):
+        self.closed = True
+
+    def flush(self, *a):
+        return None
+
+    def madvise(self, *a):
+        return None
+
+    def __enter__(self):
+        return self
+
+    def __exit__(self, *a):
+        self.close()
+
+
 class _StdinShell:
     """What the tools touch of sys.stdin: `.buffer` (and a few harmless attributes)."""
 
@@ -629,6 +742,7 @@ class World:
         self.clock = StepClock()
         self._saved = None
         self.slept = 0.0
+        self.threads_started = 0
         self.environ = dict(environ or {})
         self._env_saved = {}
         self.fds = {}            # fake descriptor -> SimRawFile (os.open on SimFS paths)
@@ -743,6 +857,30 @@ class World:
         if vp in self.fs.files or _REAL["exists"](vp):
             return None
         raise FileNotFoundError(2, "No such file or directory", path)
+
+    def _scandir(self, path="."):
+        if isinstance(path, int):
+            return _REAL["scandir"](path)
+        p = self._vpath(path, writing=True).rstrip("/") + "/"
+        if not (p.startswith(SIMROOT) or any(k.startswith(p) for k in self.fs.files)):
+            return _REAL["scandir"](path)
+        base = os.fspath(path)
+        names = self._os_listdir(path)
+        return _ScanDir([_DirEntry(self, n, (base.rstrip("/") + "/" + n) if base not in (".", "") else n, p + n)
+                         for n in names])
+
+    def _mmap(self, fileno, length=0, *a, **kw):
+        """mmap of a simulated regular file: always the WHOLE file from byte 0, whatever the
+        descriptor's current offset (as the real call does); pipes cannot be mapped."""
+        raw = self.stdin_raw if (fileno == 0 and self.stdin_is_file) else self.fds.get(fileno)
+        if raw is None:
+            if fileno in (0, 1, 2):
+                raise OSError(19, "No such device")
+            return _REAL["mmap"](fileno, length, *a, **kw)
+        data = bytes(raw._buf())
+        if not data:
+            raise ValueError("cannot mmap an empty file")
+        return SimMmap(data if not length else data[:length])
 
     def _sleep(self, secs):
         """Discrete-event time: sleeping costs nothing real; past the budget the tool is hung."""
@@ -907,6 +1045,8 @@ class World:
     def _vpath(self, path, writing=False):
         """Virtual path if SimFS must serve `path`, else None (real, read-only)."""
         p = SimFS.norm(path)
+        if any(len(c.encode("utf-8", "surrogateescape")) > NAME_MAX for c in p.split("/")):
+            raise OSError(36, "File name too long", path)
         if not posixpath.isabs(p):
             return posixpath.normpath(self.vcwd + p)
         p = posixpath.normpath(p)
@@ -1017,6 +1157,14 @@ class World:
         os.path.islink = self._islink
         os._exit = self._os__exit
         time.sleep = self._sleep
+        world = self
+
+        def _start(thread, *a, **kw):
+            world.threads_started += 1
+            return _REAL["thread_start"](thread, *a, **kw)
+        threading.Thread.start = _start
+        _mmap_mod.mmap = self._mmap
+        os.scandir = self._scandir
         os.getcwdb = lambda: self._os_getcwd().encode()
         for k, v in self.environ.items():
             self._env_saved[k] = os.environ.get(k)
@@ -1050,6 +1198,9 @@ class World:
         os.path.islink = _REAL["islink"]
         os._exit = _REAL["os__exit"]
         time.sleep = _REAL["sleep"]
+        threading.Thread.start = _REAL["thread_start"]
+        _mmap_mod.mmap = _REAL["mmap"]
+        os.scandir = _REAL["scandir"]
         for k, v in self._env_saved.items():
             if v is None:
                 os.environ.pop(k, None)
@@ -1179,8 +1330,14 @@ def run_tool(world: World, tool: str, argv, budget: int, wall=None, opt=0) -> Ou
     except ValueError:      # not the main thread
         old = None
     try:
+        saved_argv = sys.argv
         try:
-            mod.start(list(argv))
+            # exactly what the console script does: main() reads sys.argv
+            sys.argv = [tool] + list(argv)
+            if hasattr(mod, "main"):
+                mod.main()
+            else:
+                mod.start(list(argv))
             out.exit, out.detail = "ok", "return"
         except SystemExit as e:
             c = e.code
@@ -1207,6 +1364,7 @@ def run_tool(world: World, tool: str, argv, budget: int, wall=None, opt=0) -> Ou
             if os.environ.get("VERIF_TRACE"):
                 out.trace = "".join(traceback.format_exception(e))
     finally:
+        sys.argv = saved_argv
         clock.uninstall()
         if old is not None:
             signal.alarm(0)
